@@ -8,7 +8,7 @@ import gen
 
 import c05_worlds
 
-PROOF_MODULES = ["UnytProofs.C05", "UnytProofs.C05Div"]
+PROOF_MODULES = ["UnytProofs.C05", "UnytProofs.C05Div", "UnytProofs.C05Paths"]
 
 
 def kind(u):
@@ -49,7 +49,7 @@ def run(tier, seed):
     import unyt.dimensions as D
 
     chk = core.Check("C05", tier, seed)
-    chk.proof = core.prove("C05", PROOF_MODULES, tier=tier)
+    chk.proof = core.prove("C05", PROOF_MODULES, extra_targets=("unytmodel", "drv_c05"), tier=tier)
     rng = chk.rng
     ex = gen.extract()
     atoms = list(ex["lut"].keys())
@@ -146,6 +146,26 @@ def run(tier, seed):
             r = try_(lambda: u * u ** -1)
             if r[0] != "ok" or not (r[1].is_dimensionless and r[1].expr == 1 and math.isclose(r[1].base_value, 1.0, rel_tol=1e-12)):
                 chk.fail(f"inverse|{k}", "u * u**-1 is not the dimensionless unit", {"python": snippet(hdr + "p = u*u**-1\nassert p.is_dimensionless and p.expr == 1 and math.isclose(p.base_value, 1.0, rel_tol=1e-12), p\n")})
+        # u**1 is u (offset included), u**0 is the dimensionless unit (offset units included; a logarithmic unit refuses)
+        r = try_(lambda: u ** 1)
+        if r[0] != "ok" or not (same_unit(r[1], u) and r[1].base_offset == u.base_offset and r[1].base_value == u.base_value):
+            chk.fail(f"pow-one|{k}", "u**1 is not u", {"python": snippet(hdr + "p = u**1\nassert p == u and p.expr == u.expr and p.base_offset == u.base_offset and p.base_value == u.base_value, (p, p.base_offset)\n")})
+        if k != "log":
+            r = try_(lambda: u ** 0)
+            if r[0] != "ok" or not (r[1].is_dimensionless and r[1].expr == 1 and r[1].base_value == 1.0 and r[1].base_offset == 0):
+                chk.fail(f"pow-zero|{k}", "u**0 is not the dimensionless unit", {"python": snippet(hdr + "p = u**0\nassert p.is_dimensionless and p.expr == 1 and p.base_value == 1.0 and p.base_offset == 0, p\n")})
+        # __pow__ on every kind of unit (offset and logarithmic ones refuse most exponents): the regenerated program
+        if True:
+            for q in (Fraction(0), Fraction(1), Fraction(2), Fraction(-1), Fraction(1, 2)):
+                try:
+                    fu = gen.unit_wire_fields(u)
+                except ValueError:
+                    break
+                rq = try_(lambda: u ** sympy.Rational(q.numerator, q.denominator))
+                if rq[0] == "ok" and not finite(rq[1]):
+                    continue
+                model_lines.append("\t".join(["c05.upow"] + fu + [gen.rat_str(q)]))
+                model_expect.append(("c05.upow", a, str(q), rq))
         # same expression, same registry state => equal hash and ==
         try:
             v = Unit(str(u.expr), registry=u.registry)
@@ -268,8 +288,13 @@ def run(tier, seed):
     # ---------------------------------------------------------------- same spelling, different stored data (histories)
     c05_worlds.run_worlds(chk, 4 if tier == "quick" else 40, model_lines, model_expect)
     # ---------------------------------------------------------------- model correspondence
+    # every mul/div/pow case is run twice: through the hand-written model (`UnitV.mul/div/pow`, what the laws are proved
+    # about) and through the program regenerated from the live source (`c05.*`, proved equal to it in C05Paths.lean)
+    dup = [("c05." + ln, ("c05." + ex_[0],) + tuple(ex_[1:])) for ln, ex_ in zip(model_lines, model_expect) if ex_[0] in ("umul", "udiv", "upow")]
+    model_lines += [d[0] for d in dup]
+    model_expect += [d[1] for d in dup]
     try:
-        replies = core.Model().ask(model_lines)
+        replies = core.Model("drv_c05").ask(model_lines)
     except Exception as e:  # noqa: BLE001
         replies = []
         chk.disagree("driver", repr(e))
